@@ -272,7 +272,8 @@ pub fn run_session(lines: &[String]) -> SessionResult {
         last = Some(s);
     }
     // sessions without failing lines behave like the one-shot evaluation of the concatenation
-    if problem.is_none() && !any_unspec && all_ok && !lines.is_empty() {
+    // (not for sessions with a huge line: the concatenation exceeds the code-size limits that no single line does, U9)
+    if problem.is_none() && !any_unspec && all_ok && !lines.is_empty() && lines.iter().map(|l| l.len()).sum::<usize>() < 30_000 {
         // (one statement per line: a line that ends in `}` must not swallow a `(` or `[` opening the next one)
         let text = lines.iter().filter(|l| !l.trim().is_empty()).map(|l| format!("{l};")).collect::<Vec<_>>().join("\n");
         let fp_before = real.fingerprint();
@@ -505,12 +506,26 @@ const BASES: &[&[&str]] = &[
         "functie() { a + lengte(b) }()",
         "[a, b]",
     ],
+    // the same small literals ([], "", [[]], 0.5) evaluated by one line after the other, used and dropped, with
+    // function returns (collections) in between
+    &[
+        "lengte([])",
+        "functie nul() { 0 } nul()",
+        "stel e = []; stel v = [[7, 7, 7]]; lengte(e)",
+        "lengte(\"\") + lengte([]) + lengte([[]])",
+        "functie een() { [] } lengte(een())",
+        "stel e2 = []; stel w = [\"a\", 2.5, 0.5]; [lengte(e2), lengte(w)]",
+        "functie nul2() { 0.5 } nul2(); lengte(\"\") + lengte([0.5])",
+        "[[], [[]], \"\", 0.5]",
+        "functie g() { [[], 0.5] } stel x = g(); lengte(x[0])",
+        "[e, e2, x, v]",
+    ],
 ];
 
 /// Lines that deviate from the ordinary: failures at parse, compile (at several statement positions, inside
 /// blocks and functions) and run time (after completed effects, inside calls, after output), misplaced
 /// keywords, and re-declarations.
-const DEVIATIONS: &[&str] = &[
+const DEVIATIONS_FIXED: &[&str] = &[
     "(1 +",
     "zz",
     "stel d = 1; zz",
@@ -560,6 +575,20 @@ const DEVIATIONS: &[&str] = &[
     "",
 ];
 
+/// The fixed deviation lines plus three HUGE lines (they succeed; their code does not fit 16-bit addressing, or
+/// comes within a few bytes of it): a declaration of a list of 22 000 elements, 16 400 statements, and a line
+/// whose code ends just below 64 KiB followed by a read.
+fn deviations() -> &'static [String] {
+    static CELL: std::sync::OnceLock<Vec<String>> = std::sync::OnceLock::new();
+    CELL.get_or_init(|| {
+        let mut v: Vec<String> = DEVIATIONS_FIXED.iter().map(|s| s.to_string()).collect();
+        v.push(format!("stel reus = [{}0]; lengte(reus)", "0, ".repeat(21_999)));
+        v.push(format!("stel veel = 1; {}veel", "1; ".repeat(16_400)));
+        v.push(format!("stel bijna = [{}0]; lengte(bijna)", "0, ".repeat(16_370)));
+        v
+    })
+}
+
 /// Sessions of up to 12 lines: every base session, every crash point of every one of its lines (with the rest
 /// of the session as continuation), and every insertion of one or two deviation lines at every position.
 fn long_sessions(sh: &mut Shard) {
@@ -579,7 +608,7 @@ fn long_sessions(sh: &mut Shard) {
         }
         let n = lines.len();
         for p1 in 0..=n {
-            for (d1i, d1) in DEVIATIONS.iter().enumerate() {
+            for (d1i, d1) in deviations().iter().enumerate() {
                 let mut one = lines.clone();
                 one.insert(p1, d1.to_string());
                 // the crash points of the line right after the deviation
@@ -593,8 +622,13 @@ fn long_sessions(sh: &mut Shard) {
                     }
                 }
                 for p2 in p1..=n {
-                    for (d2i, d2) in DEVIATIONS.iter().enumerate() {
+                    for (d2i, d2) in deviations().iter().enumerate() {
                         if p2 == p1 && d2i < d1i {
+                            continue;
+                        }
+                        // (the huge lines are paired with the failing re-declarations and compile failures only)
+                        let huge = |i: usize| i >= DEVIATIONS_FIXED.len();
+                        if (huge(d1i) || huge(d2i)) && !(huge(d1i) && d2i < 8) && !(huge(d2i) && d1i < 8) {
                             continue;
                         }
                         let mut two = one.clone();
@@ -725,7 +759,7 @@ pub fn repl_sessions(sh: &mut Shard, class: &str, only: Option<&[String]>) {
         let lines: Vec<String> = base.iter().map(|s| s.to_string()).collect();
         sessions.push(lines.clone());
         for p in 0..=lines.len() {
-            for d in DEVIATIONS {
+            for d in deviations() {
                 let mut one = lines.clone();
                 one.insert(p, d.to_string());
                 sessions.push(one);
@@ -735,9 +769,9 @@ pub fn repl_sessions(sh: &mut Shard, class: &str, only: Option<&[String]>) {
     if tier != Tier::Quick {
         let lines: Vec<String> = BASES[0].iter().map(|s| s.to_string()).collect();
         for p1 in 0..=lines.len() {
-            for d1 in DEVIATIONS {
+            for d1 in deviations() {
                 for p2 in p1..=lines.len() {
-                    for d2 in DEVIATIONS {
+                    for d2 in deviations() {
                         let mut two = lines.clone();
                         two.insert(p1, d1.to_string());
                         two.insert(p2 + 1, d2.to_string());
